@@ -162,11 +162,22 @@ def r1_number_arms(rep, ctx):
     AP = {p: i for i, p in enumerate(afn.params)}
 
     def operand_test(e, k):
-        t = ares.term(e)
         pk = ("param", AP.get("p%d" % k), "p%d" % k)
-        if t[0] == "call" and t[1] == ("name", "IsNumber") and t[2] == (pk,):
-            return True
-        return t[0] == "call" and t[1] == ("name", "isinstance") and len(t[2]) == 2 and t[2][0] == pk and any(x[0] == "attr" and x[2] == "ndarray" or x == ("name", "ndarray") for x in walk(t[2][1]))
+
+        def implies(t):
+            """a true outcome implies that operand k is a number or an ndarray (through a boolean local, too):
+            a leaf test of operand k, a disjunction of such, a conjunction with one such member"""
+            if t[0] == "call" and t[1] == ("name", "IsNumber") and t[2] == (pk,):
+                return True
+            if t[0] == "call" and t[1] == ("name", "isinstance") and len(t[2]) == 2 and t[2][0] == pk and any(x[0] == "attr" and x[2] == "ndarray" or x == ("name", "ndarray") for x in walk(t[2][1])):
+                return True
+            if t[0] == "op" and t[1] == "Or":
+                return all(implies(x) for x in t[2])
+            if t[0] == "op" and t[1] == "And":
+                return any(implies(x) for x in t[2])
+            return False
+
+        return implies(ares.term(e))
 
     seen_sides = set()
     for c in own_nodes(afn.node):
@@ -195,6 +206,13 @@ def r1_number_arms(rep, ctx):
                 seen_sides.add("%d" % k)
                 site = acfg.node_of(ost)
                 ok = bool(pos_edges) and site not in acfg.reach(acfg.ENTRY, avoid_edges=pos_edges)
+                if not ok:
+                    # a predicate of this operand that the rule cannot read (a local helper called inside `and` / `or`): not judged
+                    pk_ = ("param", AP.get("p%d" % k), "p%d" % k)
+                    for nid_ in acfg.nodes("test"):
+                        for s_ in walk(ares.term(acfg.ast[nid_])):
+                            if s_[0] == "call" and pk_ in s_[2] and s_[1] not in (("name", "IsNumber"), ("name", "isinstance")):
+                                raise AnalysisError("Array._DoOperation: operand %d is tested through `%s`, which is not IsNumber / isinstance(..., ndarray) spelled out: whether the empty quantity stands on the number's own side cannot be read off" % (k, show(s_, 60)))
                 rep.check(ok, "C09.R1", "Array._DoOperation:empty-on-own-side:q%d" % k, "the empty quantity stands for the number/ndarray operand on its own side",
                           "quantity %d of the operation can be the empty quantity on a path where operand %d was not found to be a number or an ndarray (`%s`)" % (k, k, norm(ast.unparse(ost))[:60]), node=ost, fn=afn)
     rep.check(seen_sides == {"1", "2"}, "C09.R1", "Array._DoOperation:empty-quantity-both-sides", "a number / ndarray may stand on either side: both quantities of the operation can be the empty quantity",
